@@ -65,7 +65,7 @@ def modelNote (v : VSt) (goid : Nat) (point : String) (wid : Nat) (n : Nat) : VS
   | "sv.starting" => apply v (.serve n)
   | "sv.started" => v
   | "h.submit" => { v with cur := aset v.cur goid n, widOfCb := aset v.widOfCb n wid }
-  | "s.request" => { v with cur := aset v.cur goid n, widOfCb := aset v.widOfCb n wid }
+  | "s.request" | "s.qrequest" | "s.qexpire" => { v with cur := aset v.cur goid n, widOfCb := aset v.widOfCb n wid }
   | "s.refused" => v
   | "s.checked" =>
     match aget v.cur goid with
